@@ -402,6 +402,9 @@ def native_build_run(ob, vin_init, cfg, wd, timeout=20):
     if rc != 0:
         return {"config": cfg, "built": False, "output": (out + err)[-1500:]}
     rc, out, err, s = run([exe], timeout, None, env={"ASAN_OPTIONS": "detect_leaks=0"})
+    if "pc points to the zero page" in err:
+        # call through an unresolved symbol: the unit under test does not exist in this build configuration
+        return {"config": cfg, "built": True, "rc": rc, "output": "not applicable: the function under test is not compiled in this configuration (unresolved symbol)", "reproduced": False}
     return {"config": cfg, "built": True, "rc": rc, "output": ((out + err)[:1800] + ("\n...\n" + (out + err)[-600:] if len(out + err) > 2400 else "")),
             "reproduced": (rc == 1 and "REPLAY RESULT: violated" in out) or rc == "timeout" or (isinstance(rc, int) and rc < 0)
                           or "ERROR: AddressSanitizer:" in err or "runtime error:" in err}
